@@ -419,8 +419,46 @@ pub fn check(tier: Tier) -> i32 {
     let count_types = [Ty::Point, Ty::PointZ, Ty::PolylineM];
     let maxn = tier.pick(1100usize, 3100);
     let count_units: Vec<(Ty, usize)> = count_types.iter().flat_map(|t| (4..=maxn).map(move |n| (*t, n))).collect();
+    // large parts: [3 points, n points, 2 points] (multipoint: n points) with the extremes of every dimension at the
+    // first / middle / last vertex of each part in turn, alone and as second of two shapes
+    let big_types: Vec<Ty> = tier.pick(vec![Ty::MultipointM, Ty::PolylineZ, Ty::Polygon, Ty::Multipatch], vec![Ty::Multipoint, Ty::MultipointM, Ty::MultipointZ, Ty::Polyline, Ty::PolylineM, Ty::PolylineZ, Ty::Polygon, Ty::PolygonM, Ty::PolygonZ, Ty::Multipatch]);
+    let big_sizes: Vec<usize> = tier.pick(vec![1025usize, 4097, 9999, 10000, 10001, 16385], vec![1025, 4097, 8193, 9999, 10000, 10001, 16385, 32769, 65537]);
+    let big_units: Vec<(Ty, usize)> = big_types.iter().flat_map(|t| big_sizes.iter().map(move |n| (*t, *n))).collect();
+    let run_big = |ty: Ty, n: usize, ctx: &mut Ctx, tick: &dyn Fn()| {
+        let pts = |start: usize, n: usize| -> Vec<P4> { (0..n).map(|i| { let k = (start + i) as f64; [k * 0.5, 3.0 - k * 0.25, 100.0 + k, 1000.0 + k * 0.125] }).collect() };
+        let fam = ty.family();
+        let base = if fam == Family::Multipoint {
+            MShape { ty, parts: vec![MPart { kind: 0, pts: pts(0, n) }] }
+        } else {
+            let (k_first, k_big) = if fam == Family::Multipatch { (2, 0) } else if fam == Family::Polygon { (0, 1) } else { (0, 0) };
+            MShape { ty, parts: vec![MPart { kind: k_first, pts: pts(0, 3) }, MPart { kind: k_big, pts: pts(3, n) }, MPart { kind: k_first, pts: pts(3 + n, 2) }] }
+        };
+        let small = reduced_set(ty)[0].clone();
+        for pi in 0..base.parts.len() {
+            let len = base.parts[pi].pts.len();
+            for vi in [0, len / 2, len - 1] {
+                for (lo, hi) in [(true, false), (false, true)] {
+                    let mut s = base.clone();
+                    for d in 0..4 {
+                        if ty.dims()[d] {
+                            if hi {
+                                s.parts[pi].pts[vi][d] = 9.0e6 + d as f64;
+                            }
+                            if lo {
+                                s.parts[pi].pts[vi][d] = -9.0e6 - d as f64;
+                            }
+                        }
+                    }
+                    run_case(&Case { ty, shapes: vec![s.clone()], ndev: 1, fin_mask: 0 }, ctx);
+                    run_case(&Case { ty, shapes: vec![small.clone(), s], ndev: 1, fin_mask: 0 }, ctx);
+                    tick();
+                }
+            }
+        }
+    };
     let n_struct = units.len();
-    let total_units = n_struct + (count_units.len() + 15) / 16;
+    let n_count_blocks = (count_units.len() + 15) / 16;
+    let total_units = n_struct + n_count_blocks + big_units.len();
     let run_count_case = |ty: Ty, n: usize, ctx: &mut Ctx| {
         let red = reduced_set(ty);
         let mut shapes: Vec<MShape> = (0..n).map(|i| red[(i * 3 + i / 5) % red.len()].clone()).collect();
@@ -437,11 +475,14 @@ pub fn check(tier: Tier) -> i32 {
     let (agg, capped) = par_blocks(total_units, Some(started + std::time::Duration::from_secs(tier.pick(50, 1500))), |b, ctx, tick| {
         if b < n_struct {
             enumerate(&units[b], ctx, tick)
-        } else {
-            for (ty, n) in count_units.iter().skip(b - n_struct).step_by(total_units - n_struct) {
+        } else if b < n_struct + n_count_blocks {
+            for (ty, n) in count_units.iter().skip(b - n_struct).step_by(n_count_blocks) {
                 run_count_case(*ty, *n, ctx);
                 tick();
             }
+        } else {
+            let (ty, n) = big_units[b - n_struct - n_count_blocks];
+            run_big(ty, n, ctx, tick);
         }
     });
     let st = selftest();
@@ -451,7 +492,7 @@ pub fn check(tier: Tier) -> i32 {
             tier,
             level: "model_checking",
             engine: "E2 structure x extreme-value placement enumerator; oracle = independent numeric min/max fold + RefCodec for stored boxes and header bytes",
-            rule: "13 types x structures (1-3 parts, 1-5 vertices) and sequences of 2-3 shapes x {no deviation; one slot x every value of F_xy; a whole dimension set to one value of F_xy; every ordered pair of distinct slots of one dimension x low x high values; every pair with values one ulp apart; all vertices identical; sequences of 2-3 shapes with every finalize placement and the extremes in each shape in turn}; plus files of EVERY record count 4..=bound with the minimum in the last-but-one and the maximum in the last record; non-trivial = >=1 deviation or >=2 shapes",
+            rule: "13 types x structures (1-3 parts, 1-5 vertices) and sequences of 2-3 shapes x {no deviation; one slot x every value of F_xy; a whole dimension set to one value of F_xy; every ordered pair of distinct slots of one dimension x low x high values; every pair with values one ulp apart; all vertices identical; sequences of 2-3 shapes with every finalize placement and the extremes in each shape in turn}; plus files of EVERY record count 4..=bound with the minimum in the last-but-one and the maximum in the last record; plus shapes [3, n, 2 points] (multipoint: n) for n in {1025, 4097, 9999, 10000, 10001, 16385} (thorough up to 65537, 10 types) with the extremes of every dimension at the first / middle / last vertex of each part in turn; non-trivial = >=1 deviation or >=2 shapes",
             bounds: json!({"units": units.len(), "f_xy": f_xy().len(), "lows": lows().len(), "highs": highs().len(), "pair_scope_max_points": tier.pick(6, 9)}),
             exhaustive: true,
             assumptions: vec![
